@@ -54,6 +54,8 @@ def check(ctx):
     # the stored scatter of bin j is the kernel's M2 of bin j, unaltered on the way into the result
     from ..dispatch import check_assembly
     check_assembly(ctx, rule="R4-scatter-reaches-result", only=("M2", "navg", "K"))
+    from ..dispatch import check_single_fields
+    check_single_fields(ctx, rule="R4-scatter-reaches-result", only=("M2", "navg", "K"))
     # "divided by the number of segments": the plan's navg is the number of starts actually averaged, on every scheduler path
     from .c10 import check_n_is_segment_count
     check_n_is_segment_count(ctx)
